@@ -136,7 +136,9 @@ class Ctx:
 
 # ---------------------------------------------------------------- TLC
 
-def run_java_tlc(workdir, module, cfg, workers=1, timeout=600, heap="3g", extra=(), props=()):
+def run_java_tlc(workdir, module, cfg, workers=1, timeout=600, heap="3g", extra=(), props=(), line_sink=None):
+    """line_sink(line) -> True when it consumed the line (generator output): such lines are not kept in the returned text,
+    so that a generator run with millions of printed schedules is parsed as a stream."""
     cmd = ["java", "-XX:+UseParallelGC", "-Xmx" + heap, "-Xss64m"]
     cmd += ["-D" + p for p in props]
     cmd += ["-cp", TLA_CP, "tlc2.TLC", "-workers", str(workers), "-metadir", os.path.join(workdir, "md-" + cfg.replace(".cfg", "")),
@@ -154,7 +156,19 @@ def run_java_tlc(workdir, module, cfg, workers=1, timeout=600, heap="3g", extra=
             except OSError:
                 pass
             raise Infra("TLC timeout after %ds: %s %s %s" % (timeout, module, cfg, last))
-    out = open(outp, errors="replace").read()
+    if line_sink is None:
+        out = open(outp, errors="replace").read()
+    else:
+        kept = []
+        with open(outp, errors="replace") as f:
+            for ln in f:
+                if not line_sink(ln.rstrip("\n")):
+                    kept.append(ln)
+        out = "".join(kept)
+        try:
+            os.remove(outp)
+        except OSError:
+            pass
     return p.returncode, out, time.time() - t0
 
 
@@ -207,7 +221,7 @@ def tla_val(v):
 
 
 def mc_run(ctx, name, base_module, consts, plain, invariants=(), properties=(), view=None, spec="Spec",
-           workers=None, timeout=900, heap="12g", extra_defs="", extra=(), constraint=None, deadlock=False):
+           workers=None, timeout=900, heap="12g", extra_defs="", extra=(), constraint=None, deadlock=False, line_sink=None):
     """Model-check base_module with constants given as definitions (consts) or cfg literals (plain)."""
     d = spec_dir(ctx, "mc-" + name)
     mod = "MC_" + re.sub(r"[^A-Za-z0-9_]", "_", name)
@@ -232,7 +246,7 @@ def mc_run(ctx, name, base_module, consts, plain, invariants=(), properties=(), 
     cfg.append("CHECK_DEADLOCK " + ("TRUE" if deadlock else "FALSE"))
     open(os.path.join(d, mod + ".tla"), "w").write("\n".join(lines) + "\n")
     open(os.path.join(d, mod + ".cfg"), "w").write("\n".join(cfg) + "\n")
-    rc, out, secs = run_java_tlc(d, mod + ".tla", mod + ".cfg", workers=workers or NCPU, timeout=timeout, heap=heap, extra=extra)
+    rc, out, secs = run_java_tlc(d, mod + ".tla", mod + ".cfg", workers=workers or NCPU, timeout=timeout, heap=heap, extra=extra, line_sink=line_sink)
     r = parse_tlc(out)
     r["name"], r["secs"], r["out"], r["dir"] = name, round(secs, 1), out, d
     return r
